@@ -274,3 +274,7 @@ package hub
 //@   requires hubReader != nil && mdns != nil && localService != nil
 //@   ensures result != nil && !result.hasStarted && !result.isShutdown
 //@   establishes result
+
+//@ fieldcover Hub
+//@ immutable Hub.certifciate
+//@ initonly Hub.httpServer in startWebsocketServer
